@@ -1,5 +1,6 @@
 #!/bin/sh
 # usage: build.sh <output binary>.  Extracts the Coq model (coq/sched must be built) into gen/ and links it with driver.ml.
+# The binary is replaced atomically (another check may be running the previous one).
 set -e
 cd "$(dirname "$0")"
 OUT="$1"
@@ -8,5 +9,7 @@ V=../../../coq/sched
 (cd gen && timeout 600 coqc -Q $V/theories QzSched $V/extract/Extract.v >/dev/null)
 cp driver.ml gen/driver.ml
 cd gen
-timeout 600 ocamlfind ocamlopt -O3 -w -a schedm.mli schedm.ml driver.ml -o "$OUT" 2>/dev/null || \
-timeout 600 ocamlfind ocamlopt -w -a schedm.mli schedm.ml driver.ml -o "$OUT"
+TMP="$OUT.tmp.$$"
+timeout 600 ocamlfind ocamlopt -O3 -w -a schedm.mli schedm.ml driver.ml -o "$TMP" 2>/dev/null || \
+timeout 600 ocamlfind ocamlopt -w -a schedm.mli schedm.ml driver.ml -o "$TMP"
+mv -f "$TMP" "$OUT"
